@@ -555,10 +555,15 @@ func driveC08(c *h.Ctx) error {
 		"all scripts of length <= 3 over a 7-letter alphabet + targeted races + random scripts + many-connection scenarios; " +
 		"non-trivial = at least one message sent; distinct by scenario JSON")
 	var scs []srvScenario
+	var httpRows []string
+	httpCoq := func() string {
+		defs, expr := h.Chunk("hrows", "hrow", httpRows, 200)
+		return defs + fmt.Sprintf("Definition mism_http := Eval vm_compute in bad_idx hrow_ok %s 0.\nPrint mism_http.\n", expr)
+	}
 	if m, _ := c.Replay["case"].(map[string]any); c.Replay == nil || (m != nil && m["leg"] == "http") {
-		c08HTTP(c)
+		httpRows = c08HTTP(c)
 		if c.Replay != nil {
-			return c.WriteCases("cases_C08.v", "", 0)
+			return c.WriteCases("cases_C08.v", "From Coq Require Import ZArith List Bool.\nFrom KV Require Import HttpHandler Cases.\nImport ListNotations.\nOpen Scope Z_scope.\n"+httpCoq(), len(httpRows))
 		}
 	}
 	if c.Replay != nil {
@@ -634,9 +639,12 @@ func driveC08(c *h.Ctx) error {
 		}
 	}
 	var sb strings.Builder
-	sb.WriteString("From Coq Require Import ZArith List Bool.\nFrom KV Require Import Lts ConnServer Cases.\nImport ListNotations.\nOpen Scope Z_scope.\n")
+	sb.WriteString("From Coq Require Import ZArith List Bool.\nFrom KV Require Import Lts ConnServer HttpHandler Cases.\nImport ListNotations.\nOpen Scope Z_scope.\n")
 	defs, expr := h.Chunk("rows", "scn * option outcome", rows, 200)
 	sb.WriteString(defs)
 	fmt.Fprintf(&sb, "Definition mism_conn := Eval vm_compute in bad_idx (scn_row_ok cfg_repo 4000) %s 0.\nPrint mism_conn.\n", expr)
-	return c.WriteCases("cases_C08.v", sb.String(), len(rows))
+	if len(httpRows) > 0 {
+		sb.WriteString(httpCoq())
+	}
+	return c.WriteCases("cases_C08.v", sb.String(), len(rows)+len(httpRows))
 }
